@@ -6,3 +6,8 @@ import Serif.Proofs.Lattice
 import Serif.Proofs.DType
 import Serif.Gen.Consts
 import Serif.Props.C04
+import Serif.Model.ObjHeap
+import Serif.Proofs.ObjHeap
+import Serif.Props.C01
+import Serif.Drive.C04
+import Serif.Drive.C01
